@@ -1,7 +1,7 @@
 """Community detection via clustering of Laplacian eigenvectors."""
 
 import numpy as np
-from scipy.sparse.linalg import eigsh
+from scipy.sparse.linalg import lobpcg
 
 from ..exception import XGIError
 from ..linalg.laplacian_matrix import normalized_hypergraph_laplacian
@@ -57,7 +57,21 @@ def spectral_clustering(H, k=2, max_iter=1_000, seed=None):
 
     # Compute normalize Laplacian and its spectra
     L, rowdict = normalized_hypergraph_laplacian(H, index=True)
-    evals, eigs = eigsh(L, k=k, which="SA")
+    # ARPACK (eigsh) re-draws restart vectors from an internal random stream that
+    # persists across calls, so its eigenvectors are not a function of the arguments.
+    # Small problems are solved densely; large ones with LOBPCG started from a block
+    # drawn with the seed (falling back to the dense solver if it breaks down).
+    # Either way the result depends on the matrix and the seed only.
+    eigs = None
+    if L.shape[0] > 500:
+        X0 = np.random.default_rng(seed=seed).uniform(size=(L.shape[0], k))
+        try:
+            evals, eigs = lobpcg(L, X0, largest=False, tol=1e-10, maxiter=1_000)
+        except Exception:  # e.g. "eigh has failed in lobpcg postprocessing"
+            eigs = None
+    if eigs is None:
+        evals, eigs = np.linalg.eigh(L.toarray())
+        eigs = eigs[:, :k]
 
     # Form metric space representation
     X = np.array(eigs)
